@@ -7,15 +7,19 @@ pub mod c04;
 pub mod c05;
 pub mod c06;
 pub mod c07;
+pub mod c08;
+pub mod c09;
 pub mod c10;
 pub mod c11;
 pub mod c12;
 pub mod c13;
 pub mod c14;
+pub mod c15;
 pub mod c16;
 pub mod c17;
 pub mod c18;
 pub mod c19;
+pub mod c20;
 
 use std::time::Instant;
 
@@ -396,6 +400,64 @@ pub fn run(cfg: &RunCfg, t0: Instant) -> i32 {
                 t0,
                 json!({"shards": shards, "ops_per_shard": n}),
             )
+        }
+        "C08" => {
+            let shards = cfg.pick(4, 32);
+            let n = cfg.pick(2_500, 12_000);
+            let mut rep = crate::run_shards(cfg, shards, |s| farm_shard(cfg, s, n, vec![Box::new(c08::C08::new(cfg.seed * 59 + s as u64))], &|g, _| {
+                g.weights = [14, 4, 2, 2, 18, 10, 14, 12, 4, 10, 1, 1, 6, 2];
+            }));
+            rep.floor("authz", 2_000);
+            rep.floor("timing", 150);
+            rep.floor("exact_return", 40);
+            rep.floor("split_conservation", 100);
+            rep.floor("non_interference", 2_000);
+            rep.floor("ids_unique", 200);
+            rep.finish_check();
+            fin(rep, cfg, "exploration",
+                "W-farm (position-heavy mix: explicit/generated/colliding identifiers, receivers, pieces, partial closes of 1 unit..all, withdrawals by owners and strangers, locked deposits through the pool manager into own/foreign/new positions); every 25th step a forked probe takes one existing position and attempts close / withdraw / emergency withdraw / top-up / create-for-the-owner from EVERY account (owner, other users, contract owner, farm owners, a contract account, the fee collector) and locked deposits into it via the pool manager, then closes it and withdraws at unlock-1s, unlock, unlock+1s; on real traffic every changed position must belong to the sender, partial closes must conserve the owner's recorded LP, normal withdrawals must pay exactly the recorded amount once; distinct = (action, role, decision) / (timing label)",
+                &[ASSUME_CHAIN, ASSUME_BOUNDS], t0, json!({"shards": shards, "ops_per_shard": n}))
+        }
+        "C09" => {
+            let shards = cfg.pick(4, 32);
+            let n = cfg.pick(2_500, 12_000);
+            let mut rep = crate::run_shards(cfg, shards, |s| farm_shard(cfg, s, n, vec![Box::new(c09::C09::new(cfg.seed * 61 + s as u64))], &|g, _| {
+                g.weights = [14, 8, 2, 2, 18, 8, 12, 4, 14, 8, 4, 1, 3, 2];
+            }));
+            rep.floor("penalty", 800);
+            rep.floor("decays", 300);
+            rep.finish_check();
+            fin(rep, cfg, "exploration",
+                "W-farm (emergency-exit-heavy mix; base penalty 0/2/10/50/100% switched by the owner and across shards; amounts 1 unit..1e20; durations incl. the anchors; farm sets with shared, future and expired owners); every executed emergency withdrawal and, every 20th step, a forked series of exits of one position at 6+ times between now and unlock+1s is read off the bank-event slice: owner payout + penalty payouts <= recorded amount, penalty <= 90%, penalty within 2 + amount*1e-15 of amount x min(0.9, base x remaining/duration x exact multiplier), non-increasing in time after closing, zero once unlocked, recipients = owners of started unexpired farms on that LP token in equal shares else all to the fee collector; distinct = (magnitude, duration bucket, open, remaining-time quarter, #active owners, base)",
+                &[ASSUME_CHAIN, ASSUME_BOUNDS], t0, json!({"shards": shards, "ops_per_shard": n}))
+        }
+        "C15" => {
+            let mut rep = c15::run_matrix(cfg);
+            rep.floor("matrix", 2_000);
+            rep.floor("accepted_changes_only_named_state", 50);
+            fin(rep, cfg, "exploration",
+                "W-admin: the complete matrix, every cell executed on a fork of one prepared state (pool, running farm, open position): 4 contracts x {pool manager: 3 config fields + 3 feature switches; farm manager: 10 config fields, farm expand/close, position create-for-another/expand/close/withdraw; epoch manager: config; all four: transfer/accept/renounce ownership} x sender roles {owner, pending owner, former owner, farm owner, position owner, pool-manager account, farm-manager account, stranger, contract account} x ownership states {initial, transfer pending, transfer pending and expired, transferred, renounced} x {no funds, one coin}; oracle = the table derived from the statement; rejected cells must leave the chain state identical, accepted cells may only change the storage the message names; distinct = cell",
+                &[ASSUME_CHAIN, "the matrix is finite and enumerated completely (exhaustive: true); the prepared state is one state"], t0, json!({"exhaustive": true}))
+        }
+        "C20" => {
+            let shards = cfg.pick(4, 32);
+            let n = cfg.pick(1_800, 8_000);
+            let first = cfg.pick(25, 120);
+            let mut rep = crate::run_shards(cfg, shards, |s| {
+                if s % 2 == 0 {
+                    pool_shard(cfg, s, n, vec![Box::new(c20::C20::new(first, 15))], &|_, _| {})
+                } else {
+                    farm_shard(cfg, s, n, vec![Box::new(c20::C20::new(first, 15))], &|g, _| {
+                        g.weights = [16, 12, 4, 6, 14, 6, 9, 6, 4, 12, 3, 2, 4, 3];
+                    })
+                }
+            });
+            rep.floor("reject_noop", 1_500);
+            rep.floor("kth_failure", 2_000);
+            rep.floor("tolerated_refund_failure", 20);
+            fin(rep, cfg, "fault_enumeration",
+                "W-pool and W-farm in alternating shards: after every rejected or aborted message the complete chain storage (all four contracts, all balances, token-factory registry) must be bit-identical to the pre-state; for the first N and then every 15th accepted message of every kind (create pool, deposits of every shape, swaps, routes, withdrawals, config; farm create/expand/close, position create/expand/close/withdraw/emergency, claims, locked deposits) the chain calls it makes (contract entries, replies, bank send/burn/mint, token-factory create/mint/burn) are counted and the message is re-executed from the same snapshot once per call with a failure injected at that call: it must be rejected with an identical state, except a blocked refund of a farm being closed (manually or automatically), where the close must still happen and everything else must equal the unblocked run; distinct = (message kind, failed call kind, call index)",
+                &[ASSUME_CHAIN, ASSUME_BOUNDS, "one injected failure per execution"], t0, json!({"shards": shards, "ops_per_shard": n}))
         }
         other => {
             eprintln!("unknown property {other}");
